@@ -41,6 +41,10 @@ def handle (ws : List String) : String :=
     match stream a, stream b with
     | some x, some y => verdict x y
     | _, _ => "bad-op"
+  | ["norm", a] =>
+    match stream a with
+    | some x => " ".intercalate ((normalize x).map showItem)
+    | none => "bad-op"
   | ["accounts", a, "|"] =>
     match stream a with
     | some x => verdict x []
